@@ -7,7 +7,7 @@ namespace Prom.Db
 open Prom.Intervals
 
 /-- Invariant of the commit loop (`d0` = state before the loop, `a` = the appender). -/
-structure FI (d0 : Db) (d : Db) (lo hi : Int) (r : Ref) : Prop where
+structure FI (d0 : Db) (d : Db) (lo hi : Int) (r : Ref) (rem : List (Nat × Smp)) : Prop where
   blocks : d.blocks = d0.blocks
   cfg : d.cfg = d0.cfg
   minT : d.minT = d0.minT
@@ -18,7 +18,8 @@ structure FI (d0 : Db) (d : Db) (lo hi : Int) (r : Ref) : Prop where
   physNe : ∀ s ∈ d.series, s.phys ≠ []
   physMax : ∀ s ∈ d.series, ∀ x ∈ s.phys, x.t < MaxI64
   tombHi : ∀ s ∈ d.series, ∀ iv ∈ s.tombs, ∀ l, s.phys.getLast? = some l → iv.maxt ≤ l.t
-  lastVis : LastVis d
+  lastOk : ∀ s ∈ d.series, ∀ l, s.phys.getLast? = some l →
+    visible s.tombs l = true ∨ ∀ p ∈ rem, p.1 = s.idx → l.t < p.2.t
   physBound : ∀ s ∈ d.series, ∀ x ∈ s.phys, (lo ≤ x.t ∨ d0.minT ≤ x.t) ∧ (x.t ≤ hi ∨ x.t ≤ d0.maxT)
   blkLo : d0.blkAll (fun x => x.t < lo)
   sinc : ∀ i, SInc (r.get i)
@@ -28,10 +29,10 @@ theorem getLast?_append_one {α} (xs : List α) (x : α) : (xs ++ [x]).getLast? 
 
 theorem commitStep_FI {d0 : Db} {a : App} (how : d0.cfg.oooWin = 0)
     (hblk : d0.blkAll (fun x => x.t < a.minValid))
-    {d : Db} {lo hi : Int} {r : Ref} (h : FI d0 d lo hi r) (p : Nat × Smp)
+    {d : Db} {lo hi : Int} {r : Ref} (p : Nat × Smp) {ps : List (Nat × Smp)} (h : FI d0 d lo hi r (p :: ps))
     (hp : a.minValid ≤ p.2.t ∧ p.2.t < MaxI64) :
     FI d0 (commitStep a (d, lo, hi) p).1 (commitStep a (d, lo, hi) p).2.1
-      (commitStep a (d, lo, hi) p).2.2 (refStep r p) := by
+      (commitStep a (d, lo, hi) p).2.2 (refStep r p) ps := by
   obtain ⟨i, x⟩ := p
   simp only at hp
   have how' : d.cfg.oooWin = 0 := by rw [h.cfg]; exact how
@@ -104,7 +105,7 @@ theorem commitStep_FI {d0 : Db} {a : App} (how : d0.cfg.oooWin = 0)
       { blocks := by simp [h.blocks], cfg := by simp [h.cfg], minT := by simp [h.minT],
         maxT := by simp [h.maxT], minValid := by simp [h.minValid],
         idxNodup := nodup_setSeries h.idxNodup _,
-        physInc := ?_, physNe := ?_, physMax := ?_, tombHi := ?_, lastVis := ?_, physBound := ?_,
+        physInc := ?_, physNe := ?_, physMax := ?_, tombHi := ?_, lastOk := ?_, physBound := ?_,
         blkLo := ?_, sinc := ?_, mem := ?_ }
     · intro s hs
       rw [mem_setSeries] at hs
@@ -135,8 +136,8 @@ theorem commitStep_FI {d0 : Db} {a : App} (how : d0.cfg.oooWin = 0)
       rw [mem_setSeries] at hs
       rcases hs with rfl | hs
       · simp only [getLast?_append_one, Option.some.injEq] at hl
-        subst hl; exact hvis
-      · exact h.lastVis s hs.1 l hl
+        subst hl; exact Or.inl hvis
+      · exact (h.lastOk s hs.1 l hl).imp id (fun h' q hq => h' q (by simp [hq]))
     · intro s hs z hz
       rw [mem_setSeries] at hs
       rcases hs with rfl | hs
@@ -174,7 +175,12 @@ theorem commitStep_FI {d0 : Db} {a : App} (how : d0.cfg.oooWin = 0)
     rw [hstep]
     have hlm : l ∈ (d.getSeries i).phys := getLast?_mem hl
     have hs := hsP l hlm
-    have hmem : d.mem i l := Or.inl ⟨_, hs, getSeries_idx d i, hlm, h.lastVis _ hs l hl⟩
+    have hlv : visible (d.getSeries i).tombs l = true := by
+      rcases h.lastOk _ hs l hl with hv | hn
+      · exact hv
+      · have := hn (i, x) (by simp) (getSeries_idx d i).symm
+        simp only at this; omega
+    have hmem : d.mem i l := Or.inl ⟨_, hs, getSeries_idx d i, hlm, hlv⟩
     have hlr := (h.mem i l).1 hmem
     have href : refStep r (i, x) = r := by
       simp only [refStep]
@@ -186,18 +192,18 @@ theorem commitStep_FI {d0 : Db} {a : App} (how : d0.cfg.oooWin = 0)
         have h2 : l'.t ≥ x.t := by omega
         simp [h2]
     rw [href]
-    exact h
+    exact { h with lastOk := fun s hs l hl => (h.lastOk s hs l hl).imp id (fun h' q hq => h' q (by simp [hq])) }
 
 theorem commitFold_FI {d0 : Db} {a : App} (how : d0.cfg.oooWin = 0)
     (hblk : d0.blkAll (fun x => x.t < a.minValid)) :
-    ∀ (ps : List (Nat × Smp)) (d : Db) (lo hi : Int) (r : Ref), FI d0 d lo hi r →
+    ∀ (ps : List (Nat × Smp)) (d : Db) (lo hi : Int) (r : Ref), FI d0 d lo hi r ps →
       (∀ p ∈ ps, a.minValid ≤ p.2.t ∧ p.2.t < MaxI64) →
       FI d0 (ps.foldl (commitStep a) (d, lo, hi)).1 (ps.foldl (commitStep a) (d, lo, hi)).2.1
-        (ps.foldl (commitStep a) (d, lo, hi)).2.2 (ps.foldl refStep r)
+        (ps.foldl (commitStep a) (d, lo, hi)).2.2 (ps.foldl refStep r) []
   | [], d, lo, hi, r, h, _ => h
   | p :: ps, d, lo, hi, r, h, hp => by
     simp only [List.foldl_cons]
-    have := commitStep_FI how hblk h p (hp p (by simp))
+    have := commitStep_FI how hblk p h (hp p (by simp))
     exact commitFold_FI how hblk ps _ _ _ _ this (fun q hq => hp q (by simp [hq]))
 
 end Prom.Db
